@@ -189,6 +189,55 @@ theorem unicode_boundaries_complete (os : List Nat) (line : Text) (hline : line 
   obtain ⟨p, d, q, h1, rfl⟩ := hb o ho
   exact reach_of_strip .normal line p d q h1
 
+/-- **no used opportunity lies strictly inside a word**: the stripped text of a word spans from
+    one used opportunity (or the start) to the next (or the end), so a word of the Unicode
+    separator contains no break opportunity of that separator — the "unbreakable fragment" of
+    C02's exception clause -/
+-- @audit TW.C11.unicode_no_inner_opportunity
+theorem unicode_no_inner_opportunity (os : List Nat) (line : Text) (hline : line ≠ [])
+    (hinc : os.Pairwise (· < ·))
+    (hb : ∀ o ∈ os, ∃ p d q, stripAnsi line = p ++ d :: q ∧ blen p = o)
+    (pre : List Text) (p : Text) (post : List Text) (h : uniPieces os line = pre ++ p :: post) :
+    ∀ o ∈ os, o ≤ blen (stripAnsi pre.flatten) ∨ blen (stripAnsi (pre.flatten ++ p)) ≤ o := by
+  have hlen := unicode_boundaries_complete os line hline hinc hb
+  rw [h] at hlen
+  simp only [List.length_append, List.length_cons] at hlen
+  have hmono : ∀ i j (hi : i < os.length) (hj : j < os.length), i ≤ j → os[i] ≤ os[j] := by
+    intro i j hi hj hij
+    rcases Nat.lt_or_ge i j with hlt | hge
+    · exact Nat.le_of_lt (List.pairwise_iff_getElem.mp hinc i j hi hj hlt)
+    · have : i = j := by omega
+      subst this; exact Nat.le_refl _
+  -- the boundary before the word
+  have hbefore : pre ≠ [] → ∃ (hi : pre.length - 1 < os.length), os[pre.length - 1] = blen (stripAnsi pre.flatten) := by
+    intro hpre
+    have := (unicode_boundaries_sound os line pre p post h hpre).2
+    have hp : 0 < pre.length := List.length_pos_iff.mpr hpre
+    have hi : pre.length - 1 < os.length := by omega
+    rw [List.getElem?_eq_getElem hi] at this
+    exact ⟨hi, by simpa using this⟩
+  intro o ho
+  obtain ⟨j, hj, rfl⟩ := List.getElem_of_mem ho
+  by_cases hjp : j < pre.length
+  · left
+    have hpre : pre ≠ [] := by intro e; rw [e] at hjp; simp at hjp
+    obtain ⟨hi, e⟩ := hbefore hpre
+    rw [← e]
+    exact hmono j (pre.length - 1) hj hi (by omega)
+  · right
+    cases post with
+    | nil => simp at hlen; omega
+    | cons q post' =>
+      have h' : uniPieces os line = (pre ++ [p]) ++ q :: post' := by simp [h]
+      have := (unicode_boundaries_sound os line (pre ++ [p]) q post' h' (by simp)).2
+      simp only [List.length_append, List.length_singleton, Nat.add_sub_cancel, List.flatten_append,
+        List.flatten_cons, List.flatten_nil, List.append_nil] at this
+      have hi : pre.length < os.length := by simp at hlen; omega
+      rw [List.getElem?_eq_getElem hi] at this
+      have e : os[pre.length] = blen (stripAnsi (pre.flatten ++ p)) := by simpa using this
+      rw [← e]
+      exact hmono pre.length j hi hj (by omega)
+
 /-- **placement of the boundaries ("first entry").** With strictly increasing positive
     opportunities, every boundary sits directly after a VISIBLE character of the line: escape
     sequences standing between that character and the next visible one belong to the following
